@@ -561,6 +561,9 @@ def rules(rep, m):
                 inc_idx = i
             if x["kind"] == "CompoundAssignOperator" and ecx.canon(kids(x)[0]) == hp + "->heap_count":
                 inc_idx = i
+            if x["kind"] == "BinaryOperator" and x.get("opcode") == "=" and ecx.canon(kids(x)[0]) == hp + "->heap_count" and \
+                    re.fullmatch(r"\(%s->heap_count \+ 1\)|\(1 \+ %s->heap_count\)" % (hp, hp), ecx.canon(kids(x)[1])):
+                inc_idx = i            # spelled out: heap_count = heap_count + 1 (possibly through a temporary)
         if s["kind"] == "IfStmt" and ecx.canon(kids(s)[0]) in ("(%s->heap_count == %s->heap_size)" % (hp, hp),
                                                                "(%s->heap_count >= %s->heap_size)" % (hp, hp)):
             if any(x["kind"] == "CallExpr" and callee_ref(x) == "hashheap_grow" for x in walk(kids(s)[1])):
